@@ -131,12 +131,19 @@ pub fn format_error(file_name: &str, source: &str, error: &CompileError) -> Stri
     ));
 
     // Caret pointing to error
-    let underline_len = if error.span.end > error.span.start && col_num > 0 {
-        let start_offset = error.span.start.saturating_sub(col_num.saturating_sub(1));
-        let end_in_line = error.span.end.saturating_sub(start_offset);
-        end_in_line
-            .min(line_text.len())
-            .saturating_sub(col_num.saturating_sub(1))
+    // (counted in characters, like the column: one caret per character of the span that lies on this line)
+    let underline_len = if error.span.end > error.span.start {
+        let start = error.span.start.min(source.len());
+        let line_start = source.as_bytes()[..start]
+            .iter()
+            .rposition(|&b| b == b'\n')
+            .map(|i| i + 1)
+            .unwrap_or(0);
+        let end_in_line = error.span.end.saturating_sub(line_start).min(line_text.len());
+        line_text
+            .get(start - line_start..end_in_line)
+            .map(|s| s.chars().count())
+            .unwrap_or(0)
             .max(1)
     } else {
         1
@@ -168,10 +175,11 @@ pub fn print_error(file_name: &str, source: &str, error: &CompileError) {
     eprint!("{}", format_error(file_name, source, error));
 }
 
-/// Get line number, column number, and line text for a byte offset
+/// Get line number, column number (both 1-based; the column is counted in characters) and line text for a byte offset
 fn get_line_info(source: &str, offset: usize) -> (usize, usize, &str) {
     let offset = offset.min(source.len());
     let mut line_num = 1;
+    let mut col_num = 1;
     let mut line_start = 0;
 
     for (i, c) in source.char_indices() {
@@ -180,7 +188,10 @@ fn get_line_info(source: &str, offset: usize) -> (usize, usize, &str) {
         }
         if c == '\n' {
             line_num += 1;
+            col_num = 1;
             line_start = i + 1;
+        } else {
+            col_num += 1;
         }
     }
 
@@ -190,7 +201,6 @@ fn get_line_info(source: &str, offset: usize) -> (usize, usize, &str) {
         .unwrap_or(source.len());
 
     let line_text = &source[line_start..line_end];
-    let col_num = offset - line_start + 1;
 
     (line_num, col_num, line_text)
 }
